@@ -18,6 +18,7 @@ import CaddyModel.C18.Chain
 import CaddyModel.C18.Tpl
 import CaddyModel.C18.CfEnv
 import CaddyModel.C18.Dial
+import CaddyModel.C18.Fcgi
 
 namespace CaddyModel.C18
 
@@ -215,6 +216,33 @@ def handleDial : List String → String
       else match dialServe false dialT varT ⟨xin, q, [47], secret, []⟩ with
         | .ok network host port => "ok " ++ Hex.encode network ++ " " ++ Hex.encode host ++ " " ++ toString port
         | .err => "err:dial"
+    | _, _, _, _, _ => "bad-op"
+  | _ => "bad-op"
+
+/-! ### fcgi -/
+
+def isPrintable (s : Bytes) : Bool := s.all (fun b => 32 ≤ b && b < 127)
+
+/-- keys the stream does not configure: `client.Get` overwrites REQUEST_METHOD / CONTENT_LENGTH after `buildEnv`,
+    and the proxy adds header fields of its own (`HTTP_X_FORWARDED_…`) that the model does not list -/
+def fcgiKeyOk (k : Bytes) : Bool :=
+  !k.isEmpty && k != str "REQUEST_METHOD" && k != str "CONTENT_LENGTH" &&
+  (!hasPrefix (str "HTTP_") k || k == str "HTTP_X_IN")
+
+def handleFcgi : List String → String
+  | [envKey, envT, rootT, split, path, rq, xin, user, secret] =>
+    match Hex.decode envKey, Hex.decode envT, Hex.decode rootT, Hex.decode split, Hex.decode path with
+    | some envKey, some envT, some rootT, some split, some path =>
+      match Hex.decode rq, Hex.decode xin, Hex.decode user, Hex.decode secret with
+      | some rq, some xin, some user, some secret =>
+        if ![envKey, envT, rootT, split, path, rq, xin, user, secret].all isPrintable then "bad-op"
+        else if !fcgiKeyOk envKey || !hasPrefix [47] rootT || !hasPrefix [47] path then "bad-op"
+        else
+          "ok " ++ " ".intercalate ((fcgiObserved ⟨envKey, envT, rootT, split⟩).map fun k =>
+            match tget k (fcgiBuild false ⟨envKey, envT, rootT, split⟩ ⟨path, rq, xin, user, secret⟩) with
+            | some v => Hex.encode v
+            | none => "!")
+      | _, _, _, _ => "bad-op"
     | _, _, _, _, _ => "bad-op"
   | _ => "bad-op"
 
